@@ -94,6 +94,11 @@ def gen_cases(tier, seed):
         for s in range(r.randint(2, 8 if tier == "thorough" else 5)):
             steps.append({"mode": r.choice(["none", "auto", "numbered", "numbered"]),
                           "files": {nm: {"size": r.choice([0, 1, 100, 70000]), "seed": r.randrange(1, 1 << 30)} for nm in names if r.random() < 0.85 or nm == names[0]}})
+        if ncls == "backup-named-sibling" and r.random() < 0.35:
+            # ... the source named like the backup is not a regular file but a FIFO (copied by removing what is there and making a node)
+            for st_ in steps:
+                if names[1] in st_["files"]:
+                    st_["files"][names[1]] = {"size": 0, "seed": 1, "kind": "fifo"}
         if ncls == "hardlinked-pair":
             # both names are overwritten by every run and a backup mode is always on: what an in-place overwrite of one name does
             # to the other names of the same file is cp's long-standing behaviour and not what this class is about
@@ -152,7 +157,7 @@ def step_cwd(case, root):
 
 def write_sources(root, files, subdirs=0):
     core.force_rmtree(os.path.join(b(root), b"src"))
-    spec = [{"p": "src", "k": "d"}] + [{"p": "src/" + nm, "k": "f", "size": f["size"], "seed": f["seed"], "segs": None} for nm, f in files.items()]
+    spec = [{"p": "src", "k": "d"}] + [{"p": "src/" + nm, "k": f.get("kind", "f"), "size": f["size"], "seed": f["seed"], "segs": None} for nm, f in files.items()]
     # (sub-directories with a file each: wherever the directory listing puts them, the walk leaves the directory and comes back)
     for k in range(subdirs):
         spec += [{"p": "src/zsub%d" % k, "k": "d"}, {"p": "src/zsub%d/inner" % k, "k": "f", "size": 3, "seed": 77 + k, "segs": None}]
@@ -291,6 +296,10 @@ def run_history(case, res):
                 rec = after.get(b(nm))
                 if rec is not None and rec["k"] == "l" and case.get("linkdest"):
                     rec = listing(root, "elsewhere").get(b(nm))     # no backup was due: the copy went through the link
+                if f.get("kind") == "fifo":
+                    if rec is None or rec["k"] != "fifo":
+                        res["viol"].append({"sig": "%s:%s:copy-missing" % (case["driver"], case["ncls"]), "what": "%s: FIFO %r not copied" % (tag, nm)})
+                    continue
                 if rec is None or rec["size"] != f["size"]:
                     res["viol"].append({"sig": "%s:%s:copy-missing" % (case["driver"], case["ncls"]), "what": "%s: %r not copied" % (tag, nm)})
             nsteps += 1
